@@ -43,7 +43,7 @@ package proto
 
 //@ func IsChannelData
 //@   pure
-//@   ensures [C11:agree] res == (len(buf) >= 4 && validChan(be16(buf, 0)) && be16(buf, 2) <= len(buf) - 4)
+//@   ensures [C01,C05,C11:agree] res == (len(buf) >= 4 && validChan(be16(buf, 0)) && be16(buf, 2) <= len(buf) - 4)
 
 //@ func (*ChannelData).grow
 //@   requires 0 <= v && v <= 65536
@@ -73,12 +73,12 @@ package proto
 
 //@ func (*ChannelData).Encode
 //@   requires dataClearOfHeader(c) && len(c.Data) <= 1048576
-//@   ensures [C11:enc-len] len(c.Raw) == 4 + pad4(len(c.Data))
-//@   ensures [C11:enc-num] be16(c.Raw, 0) == int(c.Number)
-//@   ensures [C11:enc-lenf] len(c.Data) <= 65535 ==> be16(c.Raw, 2) == len(c.Data)
-//@   ensures [C05,C11:enc-data] forall i :: 0 <= i && i < len(c.Data) ==> c.Raw[4+i] == old(c.Data[i])
-//@   ensures [C11:enc-pad] forall i :: 4 + len(c.Data) <= i && i < len(c.Raw) ==> c.Raw[i] == 0
-//@   ensures [C11:enc-keep] sameSlice(c.Data, old(c.Data)) && c.Number == old(c.Number)
+//@   ensures [C01,C05,C11:enc-len] len(c.Raw) == 4 + pad4(len(c.Data))
+//@   ensures [C01,C05,C11:enc-num] be16(c.Raw, 0) == int(c.Number)
+//@   ensures [C01,C05,C11:enc-lenf] len(c.Data) <= 65535 ==> be16(c.Raw, 2) == len(c.Data)
+//@   ensures [C01,C05,C11:enc-data] forall i :: 0 <= i && i < len(c.Data) ==> c.Raw[4+i] == old(c.Data[i])
+//@   ensures [C01,C05,C11:enc-pad] forall i :: 4 + len(c.Data) <= i && i < len(c.Raw) ==> c.Raw[i] == 0
+//@   ensures [C01,C05,C11:enc-keep] sameSlice(c.Data, old(c.Data)) && c.Number == old(c.Number)
 //@   assigns c.Raw, bytes(c.Raw)
 //@   loop 0 invariant 0 <= iter && iter < bytesToAdd && bytesToAdd == pad4(4 + len(c.Data)) - (4 + len(c.Data))
 //@   loop 0 invariant len(c.Raw) == 4 + len(c.Data) + iter
@@ -89,10 +89,10 @@ package proto
 //@   loop 0 decreases bytesToAdd - iter
 
 //@ func (*ChannelData).Decode
-//@   ensures [C11:dec-iff] (res == nil) == (len(c.Raw) >= 4 && validChan(be16(c.Raw, 0)) && be16(c.Raw, 2) <= len(c.Raw) - 4)
-//@   ensures [C05,C11:dec-val] res == nil ==> int(c.Number) == be16(c.Raw, 0) && c.Length == be16(c.Raw, 2) && sameSlice(c.Data, c.Raw[4:4+be16(c.Raw, 2)])
-//@   ensures [C11:dec-err] res == nil || res == io.ErrUnexpectedEOF || res == ErrInvalidChannelNumber || res == ErrBadChannelDataLength
-//@   ensures [C11:dec-raw] sameSlice(c.Raw, old(c.Raw))
+//@   ensures [C01,C05,C11:dec-iff] (res == nil) == (len(c.Raw) >= 4 && validChan(be16(c.Raw, 0)) && be16(c.Raw, 2) <= len(c.Raw) - 4)
+//@   ensures [C01,C05,C11:dec-val] res == nil ==> int(c.Number) == be16(c.Raw, 0) && c.Length == be16(c.Raw, 2) && sameSlice(c.Data, c.Raw[4:4+be16(c.Raw, 2)])
+//@   ensures [C01,C05,C11:dec-err] res == nil || res == io.ErrUnexpectedEOF || res == ErrInvalidChannelNumber || res == ErrBadChannelDataLength
+//@   ensures [C01,C05,C11:dec-raw] sameSlice(c.Raw, old(c.Raw))
 //@   assigns c.Number, c.Data, c.Length
 
 //@ func (*ChannelData).Reset
@@ -188,7 +188,7 @@ package proto
 //@   assigns *t
 //@ func (ReservationToken).AddTo
 //@   requires m != nil
-//@   ensures [C11:enc-size] (res == nil) == (len(t) == 8)
+//@   ensures [C01,C05,C11:enc-size] (res == nil) == (len(t) == 8)
 //@   at-call (*stun.Message).Add assert [C11:enc] arg0 == stun.AttrReservationToken && sameSlice(arg1, t) && len(arg1) == 8
 
 //@ func (*ConnectionID).GetFrom
